@@ -157,11 +157,26 @@ func escapeIdentifier(name string) string {
 }
 
 func escapeFunctionName(name string) string {
-	if isReservedPythonKeyword(name) {
+	if isReservedPythonKeyword(name) || isUsedByClassBody(name) {
 		return name + "_val"
 	}
 
 	return name
+}
+
+// isUsedByClassBody tells whether a name is one the body of a generated class
+// relies on: a method of that name shadows it for everything written after it.
+func isUsedByClassBody(input string) bool {
+	switch input {
+	// annotations of the methods that follow: `def tags(self, tags: list[str])`
+	case "list", "dict", "str", "int", "float", "bool", "bytes", "object", "typing":
+		return true
+	// the method every builder has
+	case "build":
+		return true
+	}
+
+	return false
 }
 
 func isBuiltInFunction(input string) bool {
